@@ -139,7 +139,7 @@ Proof.
   subst k_posts.
   assert (Hoks : k_oks = 0) by (destruct k_oks; [reflexivity | discriminate]).
   subst k_oks.
-  destruct I as [i_sc i_cup i_exit i_rl i_wsrl i_tok i_park i_woke i_bad i_up1 i_up2 i_lexit i_open i_cand i_upg i_noupg i_pong i_pre i_closed i_paused i_ptm i_sw i_idle b_sc b_cs b_pq b_s2c b_c2s].
+  destruct I as [i_sc i_cup i_exit i_rl i_wsrl i_tok i_park i_woke i_bad i_up1 i_up2 i_lexit i_open i_cand i_upg i_noupg i_pong i_pre i_closed i_paused i_ptm i_sw i_idle i_pre2 i_shape i_upg2 b_sc b_cs b_pq b_s2c b_c2s].
   cbn in *. unfold c_committed in *. cbn in *.
   specialize (b_s2c eq_refl). specialize (b_c2s eq_refl).
   (* no response in flight *)
@@ -193,7 +193,7 @@ Proof.
   dis st Hq SRecvWs.
   clear Hq.
   destruct st; cbn in *. subst broke.
-  destruct I0 as [i_sc i_cup i_exit i_rl i_wsrl i_tok i_park i_woke i_bad i_up1 i_up2 i_lexit i_open i_cand i_upg i_noupg i_pong i_pre i_closed i_paused i_ptm i_sw i_idle b_sc b_cs b_pq b_s2c b_c2s].
+  destruct I0 as [i_sc i_cup i_exit i_rl i_wsrl i_tok i_park i_woke i_bad i_up1 i_up2 i_lexit i_open i_cand i_upg i_noupg i_pong i_pre i_closed i_paused i_ptm i_sw i_idle i_pre2 i_shape i_upg2 b_sc b_cs b_pq b_s2c b_c2s].
   cbn in *. unfold c_committed in *. cbn in *.
   destruct c_ws, s_ws; try reflexivity.
   - exfalso. destruct i_cup as [i_cup _]. specialize (i_cup eq_refl). subst c_cand.
@@ -250,4 +250,18 @@ Proof.
   pose proof (i_tok _ _ I) as T.
   destruct (c_loop st); try congruence; cbn in T;
     (destruct (k_req st); destruct (k_resp st); cbn in T; try lia; repeat split; congruence).
+Qed.
+
+(** The client holds its transport write lock across swap + Discard + UPGRADE ([CSwap] is one step and
+    every [CSend] is before or after it), so - for every schedule and any number of concurrent
+    senders - what is in flight to a server that has not upgraded yet is: probe PINGs, then UPGRADE,
+    and only behind it application messages.  The server's "invalid packet on a candidate" branch
+    (close the new transport, lose what follows) is therefore never taken with this client. *)
+Theorem candidate_gets_only_probe_packets sched :
+  let st := run sched init in
+  s_ws st = false ->
+  pre_ok (k_cs st) = true /\ match k_cs st with [] => True | p :: _ => p = Ping \/ p = Upg end.
+Proof.
+  intros st W. pose proof (i_shape _ _ (reach_inv st (reach_run sched) 0%N) W) as P.
+  split; [exact P|]. destruct (k_cs st) as [|[] l]; simpl in *; auto; discriminate.
 Qed.
